@@ -1,13 +1,14 @@
 #!/bin/bash
-# usage: seedtest.sh <patch.diff> <prop> [<prop>...]   applies the patch to /repo, runs the checks, reverts
-patch=$1; shift
-cd /repo || exit 2
-if ! git diff --quiet; then echo "repo dirty"; exit 2; fi
-git apply "$patch" || { echo "patch does not apply"; exit 2; }
-mkdir -p /tmp/gcv_seed_scratch; cp /verif/known_findings.json /tmp/gcv_seed_scratch/ 2>/dev/null
+# usage: seedtest.sh <patch.diff> <prop> [<prop>...]   copies /repo's working tree to a scratch directory, applies
+# the patch there and runs the given checks on the copy. Nothing in /repo or /verif is modified.
+patch=$(readlink -f "$1"); shift
+t=$(mktemp -d /tmp/gcv_seed_XXXXXX)
+rsync -a --exclude=.git /repo/ $t/tree/
+( cd $t/tree && patch -p1 -s < "$patch" ) || { echo "patch does not apply"; rm -rf $t; exit 2; }
+mkdir -p $t/out; cp /verif/known_findings.json $t/out/ 2>/dev/null
 for p in "$@"; do
-  out=$(GCV_VERIF=/tmp/gcv_seed_scratch /verif/bin/gcv -p $p 2>&1)
+  out=$(GCV_REPO=$t/tree GCV_VERIF=$t/out GCV_VARIANT=1 /verif/bin/gcv -p $p 2>&1)
   echo "$out" | grep -A1 "^VIOLATION" | grep "rule" | cut -c1-260 | head -8
   echo "$out" | tail -1
 done
-git checkout -- . ; rm -rf /tmp/gcv_seed_scratch
+rm -rf $t
